@@ -164,6 +164,11 @@ fn c04() {
     add(json!({"mode": "self", "n": 2, "after": 1, "cap": 8, "probe_first": true, "boxed": true, "pb": pb}));
     add(json!({"mode": "separate", "n": 1, "flushers": 1, "cap": 8, "probe_first": true, "pb": pb}));
     add(json!({"mode": "during-shutdown", "n": 1, "cap": 8, "probe_first": true, "pb": pb}));
+    // a flush requested by another thread while main drops the join handle
+    for n in 1..=2 {
+        add(json!({"mode": "request-by-another-thread-during-shutdown", "n": n, "cap": 8, "pb": pb}));
+    }
+    add(json!({"mode": "request-by-another-thread-during-shutdown", "n": 1, "cap": 8, "boxed": true, "pb": pb}));
     // the requester drops the only queue handle right after the request
     for n in 1..=2 {
         for boxed in [false, true] {
